@@ -225,12 +225,22 @@ theorem slice_drop_prefix (a b : Bytes) (p n : Nat) : slice (a ++ b) (a.length +
   rw [List.drop_append, List.drop_eq_nil_of_le (by omega), List.nil_append, Nat.add_sub_cancel_left]
 
 theorem loadEntries_save (db : List (Nat × Bytes)) (h : WF db) :
-    loadEntries (toLE 4 db.length ++ zeros 12 ++ db.flatMap entryBytes) = db := by
-  unfold loadEntries
+    loadEntries (toLE 4 db.length ++ zeros 12 ++ db.flatMap entryBytes) = some db := by
+  unfold loadEntries rawEntry
+  have hflen : (toLE 4 db.length ++ zeros 12 ++ db.flatMap entryBytes).length = 0x10 + 0x20 * db.length := by
+    rw [List.length_append, List.length_append, Exefs.toLE_length, zeros_length,
+      flatMap_eq_range db (0, []) entryBytes,
+      flatMap_length_uniform _ 0x20 db.length (fun b hb => by
+        apply entryBytes_length
+        rw [List.getD_eq_getElem?_getD, List.getElem?_eq_getElem hb]
+        exact h.seeds _ (List.getElem_mem _))]
+    omega
   have hcount : readLE (slice (toLE 4 db.length ++ zeros 12 ++ db.flatMap entryBytes) 0 4) = db.length := by
     rw [List.append_assoc, slice_append_left _ _ 0 4 (by rw [Exefs.toLE_length]; omega),
       slice_all _ _ (by rw [Exefs.toLE_length]; exact Nat.le_refl _), Exefs.readLE_toLE 4 _ (by have := h.count; omega)]
-  simp only [hcount]
+  simp only [hcount, hflen]
+  rw [if_pos (by omega)]
+  congr 1
   apply List.ext_getElem?
   intro i
   rw [List.getElem?_map]
@@ -292,12 +302,24 @@ theorem foldl_dictSet (l : List (Nat × Bytes)) : ∀ (acc : List (Nat × Bytes)
     · simp
     · simpa using hnd
 /-- **seed database**: a saved database loads back as the same entries in the same order -/
-theorem seeddb_roundtrip (db : List (Nat × Bytes)) (h : WF db) : ∃ b, save db = some b ∧ load [] b = db := by
+theorem seeddb_roundtrip (db : List (Nat × Bytes)) (h : WF db) : ∃ b, save db = some b ∧ load [] b = .ok db := by
   refine ⟨_, save_eq db h, ?_⟩
   unfold load
   rw [loadEntries_save db h]
   have := foldl_dictSet db [] (by simpa using h.distinct)
+  simp only [Except.ok.injEq]
   simpa using this
+
+/-- **cost**: the loader never looks at more entries than the file holds, whatever the count field says -/
+theorem load_bounded (f : Bytes) (es : List (Nat × Bytes)) (h : loadEntries f = some es) : 0x20 * es.length + 0x10 ≤ max f.length 0x10 := by
+  unfold loadEntries at h
+  simp only at h
+  split at h
+  · rename_i hle
+    simp only [Option.some.injEq] at h
+    rw [← h, List.length_map, List.length_range]
+    omega
+  · cases h
 end SeedDb
 
 namespace Save
@@ -319,7 +341,8 @@ theorem dpfs_bytes (x : Dpfs) : dpfsMagic ++ x.lv1.toBytes ++ x.lv2.toBytes ++ x
   simp [dpfsSegs, Level.toBytes, List.flatten]
 
 /-- **DPFS descriptor**: parsing a serialised value returns the value -/
-theorem dpfs_roundtrip (x : Dpfs) (b : Bytes) (h : x.toBytes = some b) : Dpfs.fromBytes b = .ok x := by
+theorem dpfs_roundtrip (x : Dpfs) (b : Bytes) (h : x.toBytes = some b)
+    (hs : x.lv1.sane = true ∧ x.lv2.sane = true ∧ x.lv3.sane = true) : Dpfs.fromBytes b = .ok x := by
   unfold Dpfs.toBytes at h
   split at h
   · rename_i hf
@@ -334,8 +357,8 @@ theorem dpfs_roundtrip (x : Dpfs) (b : Bytes) (h : x.toBytes = some b) : Dpfs.fr
     unfold Dpfs.fromBytes
     rw [if_neg (by rw [hmagic]; simp), if_neg (by rw [hlen]; simp)]
     have f := fun k off n v hk hseg hoff hv => le_seg (dpfsSegs x) k off n v hk hseg hoff hv
-    simp only [levelAt]
-    rw [f 1 8 8 x.lv1.offset (by simp [dpfsSegs]) rfl (by simp [dpfsSegs, dpfsMagic]) (by omega),
+    simp only [levelAt, Level.sane]
+    simp only [f 1 8 8 x.lv1.offset (by simp [dpfsSegs]) rfl (by simp [dpfsSegs, dpfsMagic]) (by omega),
       f 2 16 8 x.lv1.size (by simp [dpfsSegs]) rfl (by simp [dpfsSegs, dpfsMagic, Exefs.toLE_length]) (by omega),
       f 3 24 4 x.lv1.log2 (by simp [dpfsSegs]) rfl (by simp [dpfsSegs, dpfsMagic, Exefs.toLE_length]) (by omega),
       f 5 32 8 x.lv2.offset (by simp [dpfsSegs]) rfl (by simp [dpfsSegs, dpfsMagic, Exefs.toLE_length]) (by omega),
@@ -344,6 +367,8 @@ theorem dpfs_roundtrip (x : Dpfs) (b : Bytes) (h : x.toBytes = some b) : Dpfs.fr
       f 9 56 8 x.lv3.offset (by simp [dpfsSegs]) rfl (by simp [dpfsSegs, dpfsMagic, Exefs.toLE_length]) (by omega),
       f 10 64 8 x.lv3.size (by simp [dpfsSegs]) rfl (by simp [dpfsSegs, dpfsMagic, Exefs.toLE_length]) (by omega),
       f 11 72 4 x.lv3.log2 (by simp [dpfsSegs]) rfl (by simp [dpfsSegs, dpfsMagic, Exefs.toLE_length]) (by omega)]
+    simp only [Level.sane] at hs
+    rw [if_neg (by simp [hs.1, hs.2.1, hs.2.2])]
   · cases h
 def ivfcSegs (x : Ivfc) : List Bytes :=
   [ivfcMagic, toLE 8 x.masterHashSize,
@@ -358,7 +383,8 @@ theorem ivfc_bytes (x : Ivfc) : ivfcMagic ++ toLE 8 x.masterHashSize ++ x.lv1.to
   simp [ivfcSegs, Level.toBytes, List.flatten]
 
 /-- **IVFC descriptor**: parsing a serialised value returns the value -/
-theorem ivfc_roundtrip (x : Ivfc) (b : Bytes) (h : x.toBytes = some b) : Ivfc.fromBytes b = .ok x := by
+theorem ivfc_roundtrip (x : Ivfc) (b : Bytes) (h : x.toBytes = some b)
+    (hs : x.lv1.sane = true ∧ x.lv2.sane = true ∧ x.lv3.sane = true ∧ x.lv4.sane = true) : Ivfc.fromBytes b = .ok x := by
   unfold Ivfc.toBytes at h
   split at h
   · rename_i hf
@@ -373,8 +399,8 @@ theorem ivfc_roundtrip (x : Ivfc) (b : Bytes) (h : x.toBytes = some b) : Ivfc.fr
     unfold Ivfc.fromBytes
     rw [if_neg (by rw [hmagic]; simp), if_neg (by rw [hlen]; simp)]
     have f := fun k off n v hk hseg hoff hv => le_seg (ivfcSegs x) k off n v hk hseg hoff hv
-    simp only [levelAt]
-    rw [f 1 8 8 x.masterHashSize (by simp [ivfcSegs]) rfl (by simp [ivfcSegs, ivfcMagic]) (by omega),
+    simp only [levelAt, Level.sane]
+    simp only [f 1 8 8 x.masterHashSize (by simp [ivfcSegs]) rfl (by simp [ivfcSegs, ivfcMagic]) (by omega),
       f 2 0x10 8 x.lv1.offset (by simp [ivfcSegs]) rfl (by simp [ivfcSegs, ivfcMagic, Exefs.toLE_length]) (by omega),
       f 3 (0x10 + 8) 8 x.lv1.size (by simp [ivfcSegs]) rfl (by simp [ivfcSegs, ivfcMagic, Exefs.toLE_length]) (by omega),
       f 4 (0x10 + 0x10) 4 x.lv1.log2 (by simp [ivfcSegs]) rfl (by simp [ivfcSegs, ivfcMagic, Exefs.toLE_length]) (by omega),
@@ -388,6 +414,8 @@ theorem ivfc_roundtrip (x : Ivfc) (b : Bytes) (h : x.toBytes = some b) : Ivfc.fr
       f 15 (0x58 + 8) 8 x.lv4.size (by simp [ivfcSegs]) rfl (by simp [ivfcSegs, ivfcMagic, Exefs.toLE_length]) (by omega),
       f 16 (0x58 + 0x10) 4 x.lv4.log2 (by simp [ivfcSegs]) rfl (by simp [ivfcSegs, ivfcMagic, Exefs.toLE_length]) (by omega),
       f 18 0x70 8 x.descSize (by simp [ivfcSegs]) rfl (by simp [ivfcSegs, ivfcMagic, Exefs.toLE_length]) (by omega)]
+    simp only [Level.sane] at hs
+    rw [if_neg (by simp [hs.1, hs.2.1, hs.2.2.1, hs.2.2.2])]
   · cases h
 
 def difiSegs (x : Difi) : List Bytes :=
